@@ -141,9 +141,22 @@ def run(chk):
                                             return True
                             return False
 
+                        def zero_split_of_new(t):
+                            """an -es ... 0 at t applied to a population that an earlier -es of the same time created"""
+                            cur, created = pc["npop"], set()
+                            for e in sorted(pc["events"], key=lambda e: e[1]):
+                                here = math.isclose(e[1] * 4 * N0, t, rel_tol=1e-9)
+                                if e[0] == "s":
+                                    if here and e[3] == 0 and e[2] in created:
+                                        return True
+                                    cur += 1
+                                    if here:
+                                        created.add(cur)
+                            return False
+
                         def cls(t):
                             if any(math.isclose(t, z, rel_tol=1e-9) for z in zero):
-                                return "split-keeps-nothing"
+                                return "split-of-new-keeps-nothing" if zero_split_of_new(t) else "split-keeps-nothing"
                             if nsplits(t) >= 2:
                                 return "several-same-time-splits"
                             if join_chain(t):
